@@ -724,4 +724,23 @@ theorem chain_render (k : SKey) (hw : k.WF) (hne : k.render ≠ []) : chain true
       simp only [renderComps, dots, List.replicate_zero, List.append_nil] at hdot ⊢
       simp [chainF, step, hdot, go, pathOf]
 
+/-- the stack after walking a prefix of components -/
+def stackAfter : List Name → List (Name × Nat) → List Name
+  | st, [] => st
+  | st, (s, d) :: r => stackAfter ((s :: st).drop (d - 1)) r
+
+theorem go_append : ∀ (pre r : List (Name × Nat)) (st : List Name), r ≠ [] →
+    go st (pre ++ r) = go (stackAfter st pre) r
+  | [], _, _, _ => rfl
+  | (s, d) :: pre, r, st, hr => by
+    have hne : ∃ c t, pre ++ r = c :: t := by
+      cases pre with
+      | nil => cases r with
+        | nil => exact absurd rfl hr
+        | cons c t => exact ⟨c, t, rfl⟩
+      | cons c t => exact ⟨c, t ++ r, rfl⟩
+    obtain ⟨c, t, hct⟩ := hne
+    rw [List.cons_append, hct, go_cons_cons, ← hct, stackAfter]
+    exact go_append pre r _ hr
+
 end Cpppo.Dotdict
